@@ -1,8 +1,449 @@
-//! C07 — not built yet.
+//! C07 — port addresses reach the right device under Spectrum partial decoding.
+//! Exhaustive: every one of the 65536 port addresses x {read, write} x {48K, 128K} x
+//! {kempston, mouse, extender on/off}, through the real `read_io`/`write_io` (hook H1), the device
+//! reached being identified by its side effect / the distinguishable value it returns.
+//! Plus the floating bus for every T-state of a frame.
+use crate::host::*;
 use crate::util::*;
+use rustzx_core::zx::{
+    joy::kempston::KempstonKey,
+    mouse::kempston::{KempstonMouseButton, KempstonMouseWheelDirection},
+    video::colors::ZXColor,
+};
 
-pub fn run(_o: &Opts) -> Report {
+const READ_DEV: [&str; 8] = [
+    "extender",
+    "ula",
+    "mouse.buttons",
+    "mouse.x",
+    "mouse.y",
+    "ay",
+    "kempston",
+    "floating",
+];
+const WRITE_DEV: [&str; 6] = ["extender", "ay.select", "ay.data", "ula", "paging", "none"];
+
+#[derive(Clone, Copy)]
+struct IoCfg {
+    m128: bool,
+    kempston: bool,
+    mouse: bool,
+    ext_mask: u16,
+    ext_val: u16,
+}
+
+impl IoCfg {
+    fn name(&self) -> String {
+        format!(
+            "{}{}{}{}",
+            if self.m128 { "128k" } else { "48k" },
+            if self.kempston { "+kempston" } else { "" },
+            if self.mouse { "+mouse" } else { "" },
+            if self.ext_mask != 0 || self.ext_val == 0 {
+                format!("+ext({:04x}/{:04x})", self.ext_mask, self.ext_val)
+            } else {
+                String::new()
+            }
+        )
+    }
+    fn has_ext(&self) -> bool {
+        // mask 0 / val 1 can never match: "no extender"
+        !(self.ext_mask == 0 && self.ext_val != 0)
+    }
+}
+
+/// canonical ports for preparing/restoring device state, chosen outside the extender's claim
+#[derive(Clone, Copy)]
+struct Canon {
+    ay_sel: u16,
+    ay_dat: u16,
+    ay_read: u16,
+    ula: u16,
+    pg: u16,
+}
+
+fn canon(cfg: &IoCfg) -> Canon {
+    let free = |p: u16| !cfg.has_ext() || (p & cfg.ext_mask) != cfg.ext_val;
+    let pick = |f: &dyn Fn(u16) -> bool| (0..=0xFFFFu16).rev().find(|p| free(*p) && f(*p)).expect("no canonical port");
+    Canon {
+        ay_sel: pick(&|p| p & 0xC002 == 0xC000 && p & 1 == 1),
+        ay_dat: pick(&|p| p & 0xC002 == 0x8000 && p & 1 == 1),
+        ay_read: pick(&|p| p & 0xC002 == 0xC000 && p & 0x21 == 0x21),
+        ula: pick(&|p| p & 1 == 0 && p & 0xC002 != 0xC000 && p & 0xC002 != 0x8000),
+        pg: pick(&|p| p & 0x8002 == 0 && p & 1 == 1),
+    }
+}
+
+/// Distinguishable device states: ULA (no key) 0xBF, Kempston 0x15, mouse buttons 0xF5 (wheel 15),
+/// X 0x3C, Y 0x5A, AY register 3 = 0x77 selected, extender 0xE7, floating (border time) 0xFF.
+fn prepared(cfg: &IoCfg) -> Emu {
+    let mut c = Cfg::new(cfg.m128);
+    c.kempston = cfg.kempston;
+    c.mouse = cfg.mouse;
+    c.ay = true;
+    c.sound = true;
+    let mut e = emu(&c);
+    if cfg.has_ext() {
+        e.set_io_extender(Ext {
+            mask: cfg.ext_mask,
+            val: cfg.ext_val,
+            read_value: 0xE7,
+            log: vec![],
+        });
+    }
+    e.send_kempston_key(KempstonKey::Right, true);
+    e.send_kempston_key(KempstonKey::Down, true);
+    e.send_kempston_key(KempstonKey::Fire, true);
+    e.send_mouse_button(KempstonMouseButton::Right, true);
+    e.send_mouse_button(KempstonMouseButton::Additional, true);
+    let _ = KempstonMouseWheelDirection::Up;
+    e.send_mouse_pos_diff(0x3D, 0);
+    e.send_mouse_pos_diff(0, -0x5B);
+    // AY: reg 3 := 0x77 and stay on reg 3; reg 0 := 0x11, reg 2 := 0x22 for the write sweep
+    let k = canon(cfg);
+    e.verif_write_io(k.ay_sel, 0);
+    e.verif_write_io(k.ay_dat, 0x11);
+    e.verif_write_io(k.ay_sel, 2);
+    e.verif_write_io(k.ay_dat, 0x22);
+    e.verif_write_io(k.ay_sel, 3);
+    e.verif_write_io(k.ay_dat, 0x77);
+    if let Some(x) = e.io_extender() {
+        x.log.clear();
+    }
+    e
+}
+
+fn classify_read(v: u8, ext_hit: bool) -> Option<usize> {
+    if ext_hit {
+        return Some(0);
+    }
+    match v {
+        0xBF => Some(1),
+        0xF5 => Some(2),
+        0x3C => Some(3),
+        0x5A => Some(4),
+        0x77 => Some(5),
+        0x15 => Some(6),
+        0xFF => Some(7),
+        _ => None,
+    }
+}
+
+fn parse_table(s: &str) -> Vec<(usize, u8)> {
+    let b = s.as_bytes();
+    assert_eq!(b.len(), 65536 * 3, "table has wrong size");
+    let hx = |c: u8| (c as char).to_digit(16).unwrap() as u8;
+    (0..65536)
+        .map(|i| (hx(b[3 * i]) as usize, hx(b[3 * i + 1]) * 16 + hx(b[3 * i + 2])))
+        .collect()
+}
+
+fn bit_class(port: u16) -> String {
+    // the address lines the devices decode
+    format!(
+        "A15A14={}{} A10A8={}{} A7-5={}{}{} A1A0={}{}",
+        port >> 15 & 1,
+        port >> 14 & 1,
+        port >> 10 & 1,
+        port >> 8 & 1,
+        port >> 7 & 1,
+        port >> 6 & 1,
+        port >> 5 & 1,
+        port >> 1 & 1,
+        port & 1
+    )
+}
+
+fn record(
+    rep: &mut Report,
+    cfg: &IoCfg,
+    dir: &str,
+    port: u16,
+    got: Option<usize>,
+    raw: String,
+    model_dev: usize,
+    acceptable: u8,
+    names: &[&str],
+) {
+    let got_name = got.map(|g| names[g].to_string()).unwrap_or(format!("unrecognised({})", raw));
+    let spec_ok = match got {
+        Some(g) => acceptable & (1 << g) != 0,
+        None => false,
+    };
+    let case = format!("{} {} {} {:04x}", if cfg.m128 { 128 } else { 48 }, cfg_text(cfg), dir, port);
+    if !spec_ok {
+        let want: Vec<&str> = (0..names.len()).filter(|i| acceptable & (1 << i) != 0).map(|i| names[i]).collect();
+        rep.violation(Violation {
+            kind: Kind::SpecViolated,
+            key: format!("C07/{}/{}->{}/{}", dir, want.join("|"), got_name, bit_class(port)),
+            what: format!(
+                "{} {} of port {:04x} reaches {} but it selects exactly {}",
+                cfg.name(), dir, port, got_name, want.join("|")
+            ),
+            correspondence: "corr.C07.port-sweep (Model.Machine.readDecode/writeDecode vs read_io/write_io)".into(),
+            case: J::obj(vec![("text", J::s(case))]),
+            implementation: got_name,
+            expected: want.join("|"),
+        });
+    } else if got != Some(model_dev) {
+        rep.violation(Violation {
+            kind: Kind::ModelMismatch,
+            key: format!("C07/{}/model:{}->{}/{}", dir, names[model_dev], got_name, bit_class(port)),
+            what: format!(
+                "{} {} of port {:04x} reaches {} but the Lean model routes it to {} (several devices selected: the property does not decide)",
+                cfg.name(), dir, port, got_name, names[model_dev]
+            ),
+            correspondence: "corr.C07.port-sweep (Model.Machine.readDecode/writeDecode vs read_io/write_io)".into(),
+            case: J::obj(vec![("text", J::s(case))]),
+            implementation: got_name,
+            expected: names[model_dev].to_string(),
+        });
+    }
+}
+
+fn cfg_text(c: &IoCfg) -> String {
+    format!("{} {} {:04x} {:04x}", c.kempston as u8, c.mouse as u8, c.ext_mask, c.ext_val)
+}
+
+fn read_one(e: &mut Emu, port: u16) -> (Option<usize>, String) {
+    e.verif_set_frame_clocks(0);
+    let v = e.verif_read_io(port);
+    let hit = e.io_extender().map(|x| !x.log.is_empty()).unwrap_or(false);
+    if let Some(x) = e.io_extender() {
+        x.log.clear();
+    }
+    (classify_read(v, hit), format!("{:02x}", v))
+}
+
+/// performs the write, observes which device changed, restores the device state
+fn write_one(e: &mut Emu, cfg: &IoCfg, port: u16) -> (Option<usize>, String) {
+    let k = canon(cfg);
+    e.verif_set_frame_clocks(0);
+    let before_pg = e.verif_paging().0;
+    e.verif_write_io(port, 0x02);
+    let mut hits = vec![];
+    if e.io_extender().map(|x| !x.log.is_empty()).unwrap_or(false) {
+        hits.push(0);
+        e.io_extender().unwrap().log.clear();
+    }
+    // AY select: now reg 2 (0x22) instead of reg 3 (0x77); AY data: reg 3 became 0x02
+    let ay = e.verif_read_io(k.ay_read);
+    if let Some(x) = e.io_extender() {
+        x.log.clear();
+    }
+    if ay == 0x22 {
+        hits.push(1);
+        e.verif_write_io(k.ay_sel, 3);
+    } else if ay == 0x02 {
+        hits.push(2);
+        e.verif_write_io(k.ay_dat, 0x77);
+    } else if ay != 0x77 {
+        return (None, format!("ay={:02x}", ay));
+    }
+    if !matches!(e.border_color(), ZXColor::Black) {
+        hits.push(3);
+        e.verif_write_io(k.ula, 0);
+    }
+    if e.verif_paging().0 != before_pg {
+        hits.push(4);
+        if cfg.m128 {
+            e.verif_write_io(k.pg, 0);
+        }
+    }
+    if let Some(x) = e.io_extender() {
+        x.log.clear();
+    }
+    match hits.len() {
+        0 => (Some(5), "none".into()),
+        1 => (Some(hits[0]), String::new()),
+        _ => (None, format!("several:{:?}", hits)),
+    }
+}
+
+fn configs(o: &Opts) -> Vec<IoCfg> {
+    let mut v = vec![];
+    // extender predicates: none; a narrow one (the test suite's debug port 0xCCCC); one overlapping the
+    // ULA and AY ranges ("claims every port with A7..A4 = 1111")
+    let exts: Vec<(u16, u16)> = if o.thorough() {
+        vec![(0, 1), (0xFFFF, 0xCCCC), (0x00F0, 0x00F0), (0x8001, 0x8001)]
+    } else {
+        vec![(0, 1), (0x00F0, 0x00F0)]
+    };
+    for m128 in [false, true] {
+        for kempston in [false, true] {
+            for mouse in [false, true] {
+                for (em, ev) in &exts {
+                    v.push(IoCfg { m128, kempston, mouse, ext_mask: *em, ext_val: *ev });
+                }
+            }
+        }
+    }
+    v
+}
+
+fn floating_bus(o: &Opts, model: &mut Model, rep: &mut Report) {
+    for m128 in [false, true] {
+        let frame = if m128 { 70908 } else { 69888 };
+        let mut c = Cfg::new(m128);
+        c.ay = true;
+        let mut e = emu(&c);
+        model.ask(&format!("new {}", if m128 { 128 } else { 48 }));
+        // screen memory pattern: byte = f(address), never 0xFF so that "idle" is recognisable
+        let pat = |a: u16, k: u32| -> u8 {
+            let v = (a as u32).wrapping_mul(97).wrapping_add(a as u32 >> 7).wrapping_add(k * 41) as u8;
+            if v == 0xFF {
+                0x7E
+            } else {
+                v
+            }
+        };
+        let patterns = o.n(1, 3) as u32;
+        for k in 0..patterns {
+            for a in 0x4000u16..0x5B00 {
+                e.verif_write_mem(a, pat(a, k), 0);
+            }
+            // the clock may only move forward inside a frame (the screen renderer keeps a cursor):
+            // eight interleaved passes of stride 8 cover every T-state; a pass ends by finishing the frame
+            let mut ts: Vec<usize> = vec![];
+            for pass in 0..8 {
+                let mut t = pass;
+                while t < frame - 8 {
+                    ts.push(t);
+                    t += 8;
+                }
+            }
+            let lines: Vec<String> = ts.iter().map(|t| format!("fbus {:x}", t + 3)).collect();
+            let answers = model.ask_many(&lines);
+            for (t, ans) in ts.iter().zip(answers.iter()) {
+                let cur = e.verif_frame_clocks();
+                if *t < cur {
+                    e.verif_wait(frame - cur);
+                }
+                e.verif_set_frame_clocks(*t);
+                // port 0x00FF: no device, high byte in ROM (no contention): value sampled at t+3
+                let got = e.verif_read_io(0x00FF);
+                rep.eval();
+                let (exp_model, addr) = if ans == "-" {
+                    (0xFF, None)
+                } else {
+                    let a = u16::from_str_radix(ans, 16).unwrap();
+                    (pat(a, k), Some(a))
+                };
+                if addr.is_some() {
+                    rep.class(format!("fbus {} addr-class {:04x}", m128, addr.unwrap() & 0xFF00));
+                    rep.count("floating_bus", "fetching");
+                } else {
+                    rep.count("floating_bus", "idle");
+                }
+                // spec: idle outside the fetch windows (lines 0..191, first 128-4 T of the line after
+                // T_first+2), otherwise a byte of the display/attribute memory
+                let first = if m128 { 14362 } else { 14336 } + 2;
+                let line_len = if m128 { 228 } else { 224 };
+                let s = t + 3;
+                let must_idle = s < first || (s - first) / line_len >= 192 || (s - first) % line_len >= 128;
+                let spec_bad = if must_idle {
+                    got != 0xFF
+                } else {
+                    // some screen byte of the current pattern or idle
+                    got != 0xFF && !(0x4000u16..0x5B00).any(|a| pat(a, k) == got)
+                };
+                if spec_bad || got != exp_model {
+                    rep.violation(Violation {
+                        kind: if spec_bad { Kind::SpecViolated } else { Kind::ModelMismatch },
+                        key: format!("C07/floating-bus/{}/{}", if m128 { "128k" } else { "48k" }, if must_idle { "idle" } else { "fetch" }),
+                        what: format!("floating bus at frame T-state {} reads {:02x}, model says {:02x}{}", s, got, exp_model,
+                            addr.map(|a| format!(" (byte at {:04x})", a)).unwrap_or_default()),
+                        correspondence: "corr.C07.floating-bus (Model.Machine.floatingBusAddr vs floating_bus_value)".into(),
+                        case: J::obj(vec![("text", J::s(format!("{} fbus {} {}", if m128 { 128 } else { 48 }, k, t)))]),
+                        implementation: format!("{:02x}", got),
+                        expected: format!("{:02x}", exp_model),
+                    });
+                }
+            }
+        }
+    }
+}
+
+pub fn run(o: &Opts) -> Report {
     let mut rep = Report::new("C07");
-    rep.notes.push("not built yet".into());
+    rep.rule = "exhaustive: all 65536 port addresses x {read, write} x {48K,128K} x {kempston on/off} x {mouse on/off} x \
+host-extender predicates, each executed by the real read_io/write_io, the device reached identified by the \
+distinguishable value returned (reads) or by its side effect (writes: border colour, AY register select/data via \
+read-back, paging latch, extender log); plus the floating bus at every T-state of a frame on both machines. \
+distinct/non-trivial = distinct (configuration, direction, device reached, decoded address-line class \
+A15 A14 A10 A8 A7-A5 A1 A0)".into();
+    rep.exhaustive = true;
+    let mut model = Model::spawn(&o.model, "C07");
+
+    if let Some(text) = &o.replay {
+        // "<48|128> <kemp> <mouse> <extmask> <extval> <read|write> <port>" or "<48|128> fbus <k> <t>"
+        let t: Vec<&str> = text.split_whitespace().collect();
+        rep.exhaustive = false;
+        rep.sample(J::s(text.clone()));
+        if t.len() == 7 {
+            let cfg = IoCfg {
+                m128: t[0] == "128",
+                kempston: t[1] == "1",
+                mouse: t[2] == "1",
+                ext_mask: u16::from_str_radix(t[3], 16).unwrap_or(0),
+                ext_val: u16::from_str_radix(t[4], 16).unwrap_or(1),
+            };
+            let port = u16::from_str_radix(t[6], 16).unwrap_or(0);
+            model.ask(&format!("new {}", t[0]));
+            let mut e = prepared(&cfg);
+            if t[5] == "read" {
+                let tab = parse_table(&model.ask(&format!("rtab {}", cfg_text(&cfg))));
+                let (got, raw) = read_one(&mut e, port);
+                rep.eval();
+                record(&mut rep, &cfg, "read", port, got, raw, tab[port as usize].0, tab[port as usize].1, &READ_DEV);
+            } else {
+                let tab = parse_table(&model.ask(&format!("wtab {}", cfg_text(&cfg))));
+                let (got, raw) = write_one(&mut e, &cfg, port);
+                rep.eval();
+                record(&mut rep, &cfg, "write", port, got, raw, tab[port as usize].0, tab[port as usize].1, &WRITE_DEV);
+            }
+        } else {
+            floating_bus(o, &mut model, &mut rep);
+        }
+        return rep;
+    }
+
+    for cfg in configs(o) {
+        model.ask(&format!("new {}", if cfg.m128 { 128 } else { 48 }));
+        let rtab = parse_table(&model.ask(&format!("rtab {}", cfg_text(&cfg))));
+        let wtab = parse_table(&model.ask(&format!("wtab {}", cfg_text(&cfg))));
+        let mut e = prepared(&cfg);
+        for port in 0..=65535u16 {
+            let (got, raw) = read_one(&mut e, port);
+            rep.eval();
+            if let Some(g) = got {
+                rep.class(format!("{} r {} {}", cfg.name(), READ_DEV[g], bit_class(port)));
+                rep.count_n("read_routed", READ_DEV[g], 1);
+            }
+            let (m, acc) = rtab[port as usize];
+            rep.count_n("read_spec", if acc == 0xFF { "several devices selected (unspecified)" } else if acc == 0x80 { "nobody (floating)" } else { "exactly one" }, 1);
+            record(&mut rep, &cfg, "read", port, got, raw, m, acc, &READ_DEV);
+        }
+        for port in 0..=65535u16 {
+            let (got, raw) = write_one(&mut e, &cfg, port);
+            rep.eval();
+            if let Some(g) = got {
+                rep.class(format!("{} w {} {}", cfg.name(), WRITE_DEV[g], bit_class(port)));
+                rep.count_n("write_routed", WRITE_DEV[g], 1);
+            }
+            let (m, acc) = wtab[port as usize];
+            record(&mut rep, &cfg, "write", port, got, raw, m, acc, &WRITE_DEV);
+        }
+        if rep.samples.len() < 4 {
+            let p = 0xFADFu16;
+            rep.sample(J::obj(vec![
+                ("config", J::s(cfg.name())),
+                ("port", J::s(format!("{:04x}", p))),
+                ("model_read_device", J::s(READ_DEV[rtab[p as usize].0])),
+                ("model_write_device", J::s(WRITE_DEV[wtab[p as usize].0])),
+            ]));
+        }
+    }
+    floating_bus(o, &mut model, &mut rep);
     rep
 }
